@@ -45,7 +45,7 @@ CORPUS = [
     ('serial_backlog_helper', ['seed 5 0', 'disp 3', 'queue', 'async 1 60', 'waitq 1', 'async 1 60', 'waitq 1', 'async 1 60', 'waitq 1', 'del']),
     ('serial_backlog_two_queues', ['seed 6 20', 'disp 4', 'queue', 'queue', 'async 1 50', 'async 2 50', 'par 8', 'waitq 2', 'waitq 1', 'waitpar', 'async 2 40', 'waitq 2', 'del']),
     # many short-lived dispatchers destroyed while their workers are still running or starting (lost wake-up at shutdown)
-    ('destroy_busy_dispatchers', ['seed 7 0', 'churn 2500 4', 'churn 1500 2', 'disp 2', 'par 3', 'waitpar', 'del']),
+    ('destroy_busy_dispatchers', ['seed 7 0', 'churn 600 4', 'churn 600 2', 'churn 300 8', 'churn 600 1', 'disp 2', 'par 3', 'waitpar', 'del']),
     ('single_mode_with_work_in_flight', ['seed 4 400', 'disp 2', 'par 12', 'single 1', 'waitpar', 'par 3', 'single 0', 'par 9', 'single 1', 'pfor 0 9', 'waitpar', 'del']),
 ]
 
